@@ -1,4 +1,5 @@
 import O4.Lemmas.ScrambleSuit
+import O4.Generated.Facts.Scramblesuit
 /-!
 # C15 — ScrambleSuit client: handshake, stream and tickets work for every segmentation
 
@@ -107,5 +108,117 @@ theorem no_panic_response (P : Prims) (hs : DhHs) (resp : Bytes) :
     | some r =>
       obtain ⟨hs', y⟩ := r
       exact parseTail_no_panic P hs' y resp (by omega)
+
+/-! ## padding arithmetic of `padBurst` -/
+
+/-- wire bytes a list of padding packets adds to the burst -/
+def padWire (ps : List Int) : Int := (ps.map (· + (pktOverhead : Int))).sum
+
+/-- the `padLen` of `padBurst`: at least one packet overhead, less than one segment more, and it
+    brings the burst to the sampled length modulo the segment size -/
+theorem padLen_spec (b s : Nat) (hs : s ≤ maxSegmentLength) :
+    (pktOverhead : Int) ≤ padBurstPadLen b s ∧ padBurstPadLen b s < (pktOverhead : Int) + maxSegmentLength ∧
+    ((b : Int) + padBurstPadLen b s) % (maxSegmentLength : Int) = (s : Int) % (maxSegmentLength : Int) := by
+  simp only [padBurstPadLen, maxSegmentLength, pktOverhead] at *
+  by_cases h1 : (s : Int) ≥ ((b % 1448 : Nat) : Int)
+  · simp only [h1, ↓reduceIte]
+    by_cases h2 : (s : Int) - ((b % 1448 : Nat) : Int) < ((21 : Nat) : Int)
+    · simp only [h2, ↓reduceIte]; omega
+    · simp only [h2, ↓reduceIte]; omega
+  · simp only [h1, ↓reduceIte]
+    by_cases h2 : ((1448 : Nat) : Int) - ((b % 1448 : Nat) : Int) + (s : Int) < ((21 : Nat) : Int)
+    · simp only [h2, ↓reduceIte]; omega
+    · simp only [h2, ↓reduceIte]; omega
+
+/-- **padBurst arithmetic** for every burst length and every sampled length up to a segment:
+every padding packet gets a padding length in `[0, maxPayloadLength]` (so `makePayloadPacket`
+neither panics nor slices `zeroPadBytes` out of range); one packet is appended and the burst
+then ends exactly on the sampled length modulo the segment size — or two packets are appended
+(when more than a segment of padding is needed) and the burst ends `pktOverhead` bytes short
+of it, because the code subtracts the header of the second packet twice
+(`padLen-(700+2*pktOverhead)`).  That shortfall concerns traffic shaping only; no byte of
+payload depends on it. -/
+theorem padburst (burstLen sampleLen : Nat) (hs : sampleLen ≤ maxSegmentLength) :
+    (∀ p ∈ padBurstLens burstLen sampleLen, 0 ≤ p ∧ p ≤ (maxPayloadLength : Int)) ∧
+    ((padBurstLens burstLen sampleLen).length = 1 ∧
+        ((burstLen : Int) + padWire (padBurstLens burstLen sampleLen)) % (maxSegmentLength : Int)
+          = (sampleLen : Int) % (maxSegmentLength : Int)
+     ∨ (padBurstLens burstLen sampleLen).length = 2 ∧
+        ((burstLen : Int) + padWire (padBurstLens burstLen sampleLen) + (pktOverhead : Int)) % (maxSegmentLength : Int)
+          = (sampleLen : Int) % (maxSegmentLength : Int)) := by
+  obtain ⟨h1, h2, h3⟩ := padLen_spec burstLen sampleLen hs
+  unfold padBurstLens
+  generalize padBurstPadLen burstLen sampleLen = p at h1 h2 h3
+  simp only [maxSegmentLength, pktOverhead, maxPayloadLength, padWire] at *
+  have h0 : ¬ p = 0 := by omega
+  by_cases hbig : p > ((1448 : Nat) : Int)
+  · simp only [h0, hbig, ↓reduceIte]
+    refine ⟨?_, Or.inr ⟨rfl, ?_⟩⟩
+    · intro q hq
+      simp only [List.mem_cons, List.not_mem_nil, or_false] at hq
+      rcases hq with rfl | rfl <;> omega
+    · simp only [List.map_cons, List.map_nil, List.sum_cons, List.sum_nil]
+      omega
+  · simp only [h0, hbig, ↓reduceIte]
+    refine ⟨?_, Or.inl ⟨rfl, ?_⟩⟩
+    · intro q hq
+      simp only [List.mem_cons, List.not_mem_nil, or_false] at hq
+      subst hq; omega
+    · simp only [List.map_cons, List.map_nil, List.sum_cons, List.sum_nil]
+      omega
+
+/-- both branches occur: one packet (burst 100, sample 50), two packets (burst 1440, sample 1447) -/
+example : padBurstLens 100 50 = [1377] ∧ padBurstLens 1440 1447 = [679, 713] := by decide
+
+/-! ## session tickets -/
+
+/-- **A ticket is used for at most one handshake.** For EVERY history of connects (to any
+bridge, at any time), ticket issues and restarts, starting from an empty store, in which the
+server never issues the same 144-byte blob twice, no blob is presented in two handshakes. -/
+theorem ticket_once (h : List HOp) (hd : (issuedRaws h).Nodup) : (runHist [] [] h).2.Nodup :=
+  runHist_nodup h [] [] ⟨List.nodup_nil, List.nodup_nil, fun _ hr => by simp at hr,
+    fun _ hr => by simp [raws] at hr, fun _ hr => by simp at hr⟩ hd
+
+/-- non-vacuity: issue, connect (presents the ticket), connect again (UniformDH), restart, connect -/
+example : (runHist [] [] [.issue "a" (List.replicate 144 7) 1000, .connect "a" 2000, .connect "a" 3000,
+    .restart 4000, .connect "a" 5000]).2 = [List.replicate 144 7] := by decide +kernel
+
+/-- **An expired ticket falls back to UniformDH** (and is removed). -/
+theorem expired_falls_back (s : Store) (addr : String) (now : Int) (t : Ticket)
+    (h : s.lookup addr = some t) (hexp : t.issuedAt + (ticketLifetime : Int) ≤ now) :
+    (s.connect addr now).2 = .uniformDH ∧ (s.connect addr now).1.lookup addr = none := by
+  have hv : t.isValid now = false := by simp [Ticket.isValid]; omega
+  rw [connect_expired now h hv]
+  refine ⟨rfl, ?_⟩
+  simp only [Store.lookup, Store.erase, Option.map_eq_none_iff, List.find?_eq_none, List.mem_filter]
+  intro e ⟨_, he⟩
+  simpa using he
+
+/-- **No ticket, UniformDH** (the store is left alone). -/
+theorem absent_falls_back (s : Store) (addr : String) (now : Int) (h : s.lookup addr = none) :
+    s.connect addr now = (s, .uniformDH) := connect_absent now h
+
+/-- a valid ticket is presented and is gone from the store afterwards -/
+theorem valid_ticket_presented_and_removed (s : Store) (addr : String) (now : Int) (t : Ticket)
+    (h : s.lookup addr = some t) (hv : now < t.issuedAt + (ticketLifetime : Int)) :
+    (s.connect addr now).2 = .ticket t ∧ (s.connect addr now).1.lookup addr = none := by
+  have hv' : t.isValid now = true := by simp [Ticket.isValid]; omega
+  rw [connect_valid now h hv']
+  refine ⟨rfl, ?_⟩
+  simp only [Store.lookup, Store.erase, Option.map_eq_none_iff, List.find?_eq_none, List.mem_filter]
+  intro e ⟨_, he⟩
+  simpa using he
+
+example : ([("a", (⟨[1], [2], 0⟩ : Ticket))] : Store).lookup "a" = some ⟨[1], [2], 0⟩ ∧
+    (0 : Int) + (ticketLifetime : Int) ≤ 604800 := by decide
+
+/-- `getTicket` and `storeTicket` run under the store's mutex from their first access to the map
+    to their return (go/ast fact regenerated from the source on every run): concurrent
+    connections see the one-step `Store.getTicket` / `Store.storeTicket` of the model -/
+theorem store_ops_run_under_mutex :
+    O4.Facts.Scramblesuit.ssTicketStore_getTicket_locked = true ∧
+    O4.Facts.Scramblesuit.ssTicketStore_storeTicket_locked = true ∧
+    O4.Facts.Scramblesuit.ssTicketStore_getTicket_prelock = [] ∧
+    O4.Facts.Scramblesuit.ssTicketStore_storeTicket_prelock = [] := by decide
 
 end C15
